@@ -303,6 +303,8 @@ class _MaskInterp(FinamInterp):
             a = args[0]
             if isinstance(a, Sym) and a.op == "maskarr":
                 return a.args[1]
+            if isinstance(a, Sym) and a.op == "nomask":
+                return False  # numpy: nomask is the scalar False
             if isinstance(a, bool):
                 return a
         if short == "ndim":
